@@ -7,6 +7,27 @@ from . import rx
 M = 'github.com/Cloud-Foundations/keymaster/cmd/keymasterd'
 KM = 'github.com/Cloud-Foundations/keymaster'
 ZERO_NS = -62135596800 * 10**9   # time.Time{} as nanoseconds relative to the Unix epoch
+TW = 96                           # time instants: signed nanoseconds since the Unix epoch as a 96-bit bit-vector (pure BV arithmetic, no Int/BV mixing)
+
+
+def T(x):
+    """to time width: python int, 64-bit duration/seconds (sign-extended) or already TW bits"""
+    if isinstance(x, int): return z3.BitVecVal(x, TW)
+    if isinstance(x, IntV):
+        e = z3.simplify(x.e)
+        return z3.BitVecVal(e.as_long(), TW) if z3.is_int_value(e) else z3.Int2BV(e, TW)
+    if z3.is_bv(x):
+        if x.size() == TW: return x
+        if x.size() < TW: return z3.SignExt(TW - x.size(), x)
+        return z3.Extract(TW - 1, 0, x)
+    raise ValueError(x)
+
+
+def sat64(x):
+    """saturate a TW-bit signed value to int64 (Go's Time.Sub)"""
+    lo, hi = -(1 << 63), (1 << 63) - 1
+    return z3.Extract(63, 0, z3.If(x < T(lo), T(lo), z3.If(x > T(hi), T(hi), x)))
+
 
 IGNORE = re.compile(r'log\.DebugLogger\.|log\.Logger\.|^log\.|\(\*log\.Logger\)|prometheus|tricorder|metricLog|\.SetUsername$|'
                     r'\(\*sync\.Once\)|runtime\.|debug\.PrintStack|metricsMutex|\(\*sync\.WaitGroup\)|os\.Std|'
@@ -65,22 +86,20 @@ def tobv(x, w=64):
 
 # ---------------------------------------------------------------------------------------------- time (integer model)
 def dur_int(d):
-    return as_int(d)
+    return T(d)
 
 
 def t_now(ex, st, args, ins):
     n = st.aux.get('now')
     if n is None:
-        n = z3.Int('now'); st.aux['now'] = n
-        st.pc.append(n >= 1577836800 * 10**9); st.pc.append(n <= 3976214400 * 10**9)
+        n = z3.BitVec('now', TW); st.aux['now'] = n
+        st.pc.append(n >= T(1577836800 * 10**9)); st.pc.append(n <= T(3976214400 * 10**9))
     st.ev('now')
     return TimeV(n)
 
 
 def t_sub(ex, st, args, ins):
-    d = args[0].ns - args[1].ns
-    lo, hi = -(1 << 63), (1 << 63) - 1
-    return z3.Int2BV(z3.If(d < lo, lo, z3.If(d > hi, hi, d)), 64)
+    return sat64(args[0].ns - args[1].ns)
 
 
 TIME = {
@@ -92,14 +111,14 @@ TIME = {
     '(time.Time).Before': lambda ex, st, a, ins: a[0].ns < a[1].ns,
     '(time.Time).After': lambda ex, st, a, ins: a[0].ns > a[1].ns,
     '(time.Time).Equal': lambda ex, st, a, ins: a[0].ns == a[1].ns,
-    '(time.Time).IsZero': lambda ex, st, a, ins: a[0].ns == ZERO_NS,
-    '(time.Time).Unix': lambda ex, st, a, ins: z3.Int2BV(floordiv(a[0].ns, 10**9), 64),
-    '(time.Time).UnixNano': lambda ex, st, a, ins: z3.Int2BV(a[0].ns, 64),
+    '(time.Time).IsZero': lambda ex, st, a, ins: a[0].ns == T(ZERO_NS),
+    '(time.Time).Unix': lambda ex, st, a, ins: z3.Extract(63, 0, floordiv(a[0].ns, 10**9)),
+    '(time.Time).UnixNano': lambda ex, st, a, ins: z3.Extract(63, 0, a[0].ns),
     '(time.Time).UTC': lambda ex, st, a, ins: a[0],
     '(time.Time).Local': lambda ex, st, a, ins: a[0],
     '(time.Time).Round': lambda ex, st, a, ins: a[0],
     '(time.Time).Truncate': lambda ex, st, a, ins: a[0],
-    'time.Unix': lambda ex, st, a, ins: TimeV(as_int(a[0]) * 10**9 + as_int(a[1])),
+    'time.Unix': lambda ex, st, a, ins: TimeV(T(a[0]) * T(10**9) + T(a[1])),
     '(time.Duration).Seconds': lambda ex, st, a, ins: z3.fpSignedToFP(z3.RNE(), tobv(a[0]), z3.Float64()) / z3.FPVal(1e9, z3.Float64()),
     'time.Sleep': lambda ex, st, a, ins: None,
     re.compile(r'^\(time\.(Time|Duration)\)\.(String|Format|GoString|MarshalJSON)$'): lambda ex, st, a, ins: fresh_str(st, 'timefmt'),
@@ -107,7 +126,9 @@ TIME = {
 
 
 def floordiv(a, b):
-    return a / b  # z3 Int division is floor for positive divisor
+    # floor division of a signed TW-bit value by a positive constant
+    q = a / T(b); r = z3.SRem(a, T(b))
+    return z3.If(z3.And(r != 0, a < 0), q - 1, q)
 
 
 def fresh_str(st, what):
